@@ -333,6 +333,9 @@ func (c Cfg) YAML(pkg, importBase string, s *Schema) string {
 			models.WriteString(s.EnumBind[k])
 		}
 	}
+	for _, mi := range s.MapInputs {
+		fmt.Fprintf(&models, "  %s:\n    model: \"map[string]interface{}\"\n", mi)
+	}
 	if models.Len() > 0 {
 		b.WriteString("models:\n" + models.String())
 	}
